@@ -6,13 +6,13 @@
 # On success copies it to /verif/seeded/<Cxx>-m<k>/ with meta.json.
 src=$1; prop=$2; k=$3
 wt=/tmp/confirm_${prop}_m$k
-out=/verif/seeded/${prop}-m$k
+out=/verif/seeded/${prop}-${4:-m}$k
 rm -rf $wt; git -C /repo worktree add -q $wt HEAD || exit 9
-cleanup(){ git -C /repo worktree remove --force $wt 2>/dev/null; rm -rf $wt /tmp/confirm_${prop}_m${k}.junit.xml; }
+cleanup(){ git -C /repo worktree remove --force $wt 2>/dev/null; rm -rf $wt /tmp/confirm_${prop}_m${k}.junit.xml /tmp/confirm_tmp_${prop}_m$k; }
 trap cleanup EXIT
 demo=$(ls $src/demo*.py | head -1)
 cd $wt
-export PYTHONPATH=$wt/src PYTHONDONTWRITEBYTECODE=1 TMPDIR=/tmp
+mkdir -p /tmp/confirm_tmp_${prop}_m$k; export PYTHONPATH=$wt/src PYTHONDONTWRITEBYTECODE=1 TMPDIR=/tmp/confirm_tmp_${prop}_m$k  # tests write $TMPDIR/test.fea: keep it private
 ( cd $src && timeout 600 /venv/bin/python $demo >/tmp/confirm_${prop}_m${k}.clean.log 2>&1 ); clean_rc=$?
 git apply $src/patch.diff || { echo "$prop m$k: patch does not apply"; exit 1; }
 ( cd $src && timeout 600 /venv/bin/python $demo >/tmp/confirm_${prop}_m${k}.mut.log 2>&1 ); mut_rc=$?
